@@ -132,6 +132,35 @@ def phFromIp (g : Mem) (n : Nat) : Except PErr Headers :=
 
 /-! ### LaxPacketHeaders -/
 
+/-- the transport part of `LaxPacketHeaders::add_ip`: `r1` = result with the IP layer set, `off'` = offset
+    of the IP payload from the start of the slice given to the entry point -/
+def lphTransport (g : Mem) (ip : IpR) (r1 : Packet) (off' : Nat) : Headers :=
+  let po := ip.pl.w.o
+  let pl := ip.pl.w.l
+  let inc := ip.pl.inc
+  let fix (e : LenError) : PErr :=
+    if e.src = .slice then .len ((e.withSrc ip.pl.src).addOffset off') else .len e
+  if ip.pl.num = 1 then
+    match icmp4FromSlice g po pl with
+    | .ok w =>
+      { p := r1.setTp (.icmp4 w),
+        pay := .icmp4 ⟨po + icmp4HeaderLen g po, pl - icmp4HeaderLen g po⟩ inc }
+    | .error e => { p := r1.setStop (fix e) .icmpv4, pay := .ip ip.pl }
+  else if ip.pl.num = 58 then
+    match icmp6FromSlice po pl with
+    | .ok w => { p := r1.setTp (.icmp6 w), pay := .icmp6 ⟨po + 8, pl - 8⟩ inc }
+    | .error e => { p := r1.setStop (fix e) .icmpv6, pay := .ip ip.pl }
+  else if ip.pl.num = 17 then
+    match udpFromSliceLax g po pl with
+    | .ok w => { p := r1.setTp (.udp w), pay := .udp ⟨w.o + 8, w.l - 8⟩ inc }
+    | .error e => { p := r1.setStop (fix e) .udpHeader, pay := .ip ip.pl }
+  else if ip.pl.num = 6 then
+    match tcpFromSlice g po pl with
+    | .ok hl => { p := r1.setTp (.tcp ⟨po, pl⟩ hl), pay := .tcp ⟨po + hl, pl - hl⟩ inc }
+    | .error (.len e) => { p := r1.setStop (fix e) .tcpHeader, pay := .ip ip.pl }
+    | .error e => { p := r1.setStop e .tcpHeader, pay := .ip ip.pl }
+  else { p := r1, pay := .ip ip.pl }
+
 /-- LaxPacketHeaders::add_ip on the result so far; `off` = offset of `(o, l)` from the start of the
     slice given to the entry point. `Err` only if the IP header itself is undecodable. -/
 def lphAddIp (g : Mem) (off : Nat) (o l : Nat) (r : Packet) : Except PErr Headers :=
@@ -144,34 +173,8 @@ def lphAddIp (g : Mem) (off : Nat) (o l : Nat) (r : Packet) : Except PErr Header
       .ok { p := r1.setStop (.len ((e.addOffset off).withSrc ip.pl.src)) ly, pay := .ip ip.pl }
     | some (e, ly) => .ok { p := r1.setStop e ly, pay := .ip ip.pl }
     | none =>
-      let off' := off + (ip.pl.w.o - o)
       if ip.pl.frag then .ok { p := r1, pay := .ip ip.pl }
-      else
-        let po := ip.pl.w.o
-        let pl := ip.pl.w.l
-        let inc := ip.pl.inc
-        let fix (e : LenError) : PErr :=
-          if e.src = .slice then .len ((e.withSrc ip.pl.src).addOffset off') else .len e
-        if ip.pl.num = 1 then
-          match icmp4FromSlice g po pl with
-          | .ok w =>
-            .ok { p := r1.setTp (.icmp4 w),
-                  pay := .icmp4 ⟨po + icmp4HeaderLen g po, pl - icmp4HeaderLen g po⟩ inc }
-          | .error e => .ok { p := r1.setStop (fix e) .icmpv4, pay := .ip ip.pl }
-        else if ip.pl.num = 58 then
-          match icmp6FromSlice po pl with
-          | .ok w => .ok { p := r1.setTp (.icmp6 w), pay := .icmp6 ⟨po + 8, pl - 8⟩ inc }
-          | .error e => .ok { p := r1.setStop (fix e) .icmpv6, pay := .ip ip.pl }
-        else if ip.pl.num = 17 then
-          match udpFromSliceLax g po pl with
-          | .ok w => .ok { p := r1.setTp (.udp w), pay := .udp ⟨w.o + 8, w.l - 8⟩ inc }
-          | .error e => .ok { p := r1.setStop (fix e) .udpHeader, pay := .ip ip.pl }
-        else if ip.pl.num = 6 then
-          match tcpFromSlice g po pl with
-          | .ok hl => .ok { p := r1.setTp (.tcp ⟨po, pl⟩ hl), pay := .tcp ⟨po + hl, pl - hl⟩ inc }
-          | .error (.len e) => .ok { p := r1.setStop (fix e) .tcpHeader, pay := .ip ip.pl }
-          | .error e => .ok { p := r1.setStop e .tcpHeader, pay := .ip ip.pl }
-        else .ok { p := r1, pay := .ip ip.pl }
+      else .ok (lphTransport g ip r1 (off + (ip.pl.w.o - o)))
 
 /-- the part of `LaxPacketHeaders::from_ether_type` behind the loop -/
 def lphNet (g : Mem) (off : Nat) (et o l : Nat) (r : Packet) (pay : Pay) : Headers :=
